@@ -21,7 +21,7 @@ from ..core import canon
 
 PROP = "C20"
 NAME = "c20_pickle"
-RUNS = {"quick": 1500, "thorough": 60000}
+RUNS = {"quick": 1500, "thorough": 40000}
 TIMEOUT = 300
 CPU_LIMIT = 30
 CHUNK = 20
